@@ -3,7 +3,7 @@
 SPECIFICATION Spec
 CONSTANTS
   MaxOps = 6
-  MaxSectors = 6
+  MaxSectors = 4
   AppendNs = {1, 2, 3}
   KeepHist = TRUE
   Focus = "sizes"
